@@ -326,6 +326,133 @@ class ProgGen:
         return toks or ["local", "a"]
 
 
+# ----------------------------------------------------------------------------- program generator (wide fragment)
+class Field(str):
+    """a field / method name (`t.k`, `{k = v}`, `o:m()`): an identifier token nobody asks about"""
+
+
+class Tight(str):
+    """`.` / `:` of a field access: written without white space on either side (the server cuts the identifier under
+    the cursor out of the TEXT: `t . k` would make `k` a bare name for it)"""
+
+
+FIELDS = ["fa", "fb", "key", "mm", "x", "a", "n", "G", "run", "len"]
+
+
+class WideGen(ProgGen):
+    """ProgGen plus `_G.name` reads / writes (name = a visible local, a global or an undefined name), table
+    constructors, index expressions, method calls and `function t.f()` / `function t:m()` around plain names"""
+
+    def field(self):
+        return Field(self.r.choice(FIELDS))
+
+    def gname(self):
+        r = self.r
+        k = r.random()
+        vis = self.visible()
+        if vis and k < 0.45:
+            return r.choice(vis[-4:]) if r.random() < 0.6 else r.choice(vis)
+        if k < 0.85:
+            return r.choice(self.gpool if r.random() < 0.7 else GLOBALS)
+        return r.choice(UNDEF)
+
+    def gref(self):
+        return ["_G", Tight("."), self.gname()]
+
+    def prefix(self, d, noparen=False):
+        """something that can be indexed / called (noparen: at the start of a statement, where `(` would continue the
+        previous statement)"""
+        r = self.r
+        k = r.random()
+        if k < 0.7 or d > 2:
+            return [self.use_name()]
+        if k < 0.8:
+            return self.gref()
+        if k < 0.9 or noparen:
+            return self.prefix(d + 1, noparen) + [Tight("."), self.field()]
+        return ["("] + self.exp(d + 1) + [")"]
+
+    def args(self, d):
+        out = []
+        for j in range(self.r.choice([0, 1, 1, 2])):
+            if j:
+                out.append(",")
+            out += self.exp(d + 1)
+        return out
+
+    def table(self, d):
+        r = self.r
+        out = ["{"]
+        n = r.choice([0, 1, 2, 3])
+        for j in range(n):
+            if j:
+                out.append(r.choice([",", ",", ";"]))
+            k = r.random()
+            if k < 0.45:
+                out += self.exp(d + 1)
+            elif k < 0.8:
+                out += [self.field(), "="] + self.exp(d + 1)
+            else:
+                key = [self.use_name()] if r.random() < 0.7 else [self.use_name(), "+", "1"]
+                out += ["["] + key + ["]", "="] + self.exp(d + 1)
+        if n and r.random() < 0.15:
+            out.append(",")
+        return out + ["}"]
+
+    def index(self, d, noparen=False):
+        r = self.r
+        p = self.prefix(d, noparen)
+        if r.random() < 0.55:
+            return p + [Tight("."), self.field()]
+        return p + ["["] + (self.exp(d + 1) if r.random() < 0.5 else [self.use_name()]) + ["]"]
+
+    def mcall(self, d, noparen=False):
+        return self.prefix(d, noparen) + [Tight(":"), self.field(), "("] + self.args(d) + [")"]
+
+    def exp(self, d=0):
+        r = self.r
+        k = r.random()
+        if d > 3 or k < 0.62:
+            return ProgGen.exp(self, d)
+        if k < 0.74:
+            return self.gref()
+        if k < 0.82:
+            return self.table(d)
+        if k < 0.91:
+            return self.index(d)
+        if k < 0.95:
+            return self.mcall(d)
+        return self.index(d) + ["("] + self.args(d) + [")"]
+
+    def stat(self, d):
+        r = self.r
+        k = r.random()
+        if k < 0.70:
+            return ProgGen.stat(self, d)
+        if k < 0.78:
+            # `_G.name = e` (also under a same-named local), sometimes two targets
+            t = self.gref()
+            if r.random() < 0.2:
+                t += [","] + (self.gref() if r.random() < 0.5 else [self.use_name()])
+            return t + ["="] + self.explist(r.choice([1, 1, 2]))
+        if k < 0.86:
+            return self.index(0, True) + ["="] + self.exp()
+        if k < 0.90:
+            return self.mcall(0, True)
+        if k < 0.93:
+            return self.index(0, True) + ["("] + self.args(0) + [")"]
+        # function t.f() / function t:m() / function _G.f()
+        q = r.random()
+        if q < 0.2 and self.define_globals:
+            head = ["_G", Tight("."), r.choice(self.gpool)]
+        else:
+            head = [self.use_name()]
+            for _ in range(r.choice([1, 1, 2]) - 1):
+                head += [Tight("."), self.field()]
+            head += [Tight(":" if r.random() < 0.4 else "."), self.field()]
+        return ["function"] + head + self.funcbody(d)
+
+
 # ----------------------------------------------------------------------------- layout
 
 
@@ -336,7 +463,7 @@ def needs_sep(a, b):
     wb = b[0].isalnum() or b[0] == "_"
     if wa and wb:
         return True
-    if a[-1] in ")\"'." and wb:
+    if a[-1] in ")\"'.]" and wb:
         return True
     if a == "-" and b.startswith("-"):
         return True
@@ -363,7 +490,9 @@ def render(tokens, rng, style=None):
     prev = None
     depth = 0
     for t in tokens:
-        if prev is not None:
+        if prev is not None and (isinstance(t, Tight) or isinstance(prev, Tight)):
+            out.append("")
+        elif prev is not None:
             ns = needs_sep(prev, t)
             k = rng.random()
             stmt_start = t in ("local", "function", "if", "while", "for", "repeat", "do", "return", "break", "end",
@@ -404,7 +533,8 @@ def render(tokens, rng, style=None):
 
 
 def ident_positions(pos):
-    return [(t, l, c, c + len(t)) for (t, l, c) in pos if IDENT_RE.fullmatch(t) and t not in KEYWORDS and t != "const"]
+    return [(t, l, c, c + len(t)) for (t, l, c) in pos
+            if IDENT_RE.fullmatch(t) and t not in KEYWORDS and t != "const" and not isinstance(t, Field)]
 
 
 # ----------------------------------------------------------------------------- cases
@@ -435,8 +565,10 @@ def case_files(case):
     return out
 
 
-def gen_workspace(rng, unique=False, multi=None):
-    """-> [(name, text, ident positions)]"""
+def gen_workspace(rng, unique=False, multi=None, gen_cls=None):
+    """-> [(name, text, ident positions)]; gen_cls=WideGen: the wide fragment"""
+    wide = gen_cls is not None
+    gen_cls = gen_cls or ProgGen
     nfiles = multi if multi is not None else rng.choice([1, 1, 1, 1, 2, 2, 3])
     names = ["a.lua", "b.lua", "sub/c.lua"][:nfiles]
     out = []
@@ -449,17 +581,24 @@ def gen_workspace(rng, unique=False, multi=None):
             # most globals have one owner file; a few are assigned in several files (class split_global)
             own = gp[fi::nfiles] + (gp[:1] if rng.random() < 0.25 else [])
             pool, define = own, True
-        g = ProgGen(rng, unique=unique, globals_pool=pool if rng.random() < 0.7 or nfiles == 1 else GLOBALS,
+        g = gen_cls(rng, unique=unique, globals_pool=pool if rng.random() < 0.7 or nfiles == 1 else GLOBALS,
                     define_globals=define)
         toks = g.chunk()
         if nfiles > 1 and rng.random() < 0.8:
             # uses of the other files' globals
             other = [x for x in GLOBALS if x not in pool] or GLOBALS
             for _ in range(rng.choice([1, 2, 3])):
-                toks += [rng.choice(UNDEF), "(", rng.choice(other), ")"]
+                if wide and rng.random() < 0.5:
+                    toks += [rng.choice(UNDEF), "(", "_G", Tight("."), rng.choice(other), ")"]
+                else:
+                    toks += [rng.choice(UNDEF), "(", rng.choice(other), ")"]
         text, pos = render(toks, rng)
         out.append((fn, text, ident_positions(pos)))
     return out
+
+
+def gen_wide_workspace(rng, unique=False, multi=None):
+    return gen_workspace(rng, unique=unique, multi=multi, gen_cls=WideGen)
 
 
 def gen_twin_workspace(rng):
@@ -572,6 +711,8 @@ def hover_proj(item, ident):
     rest = label[6:] if loc else label
     if rest.startswith("function "):
         rest = rest[9:]
+    if rest.startswith("_G."):
+        rest = rest[3:]              # nothing found for `_G.name`: the label is the text that was cut, "_G.name : any"
     m = IDENT_RE.match(rest)
     return "hover=%s:%s" % ("L" if loc else "G", m.group(0) if m else "?")
 
@@ -594,7 +735,7 @@ def complete_proj(item, idents):
         if not x:
             continue
         lab = x.rsplit("/", 1)[0]
-        if lab in idents:
+        if lab in idents and lab != "_G":         # `_G` is a completion keyword (wide fragment): not modelled
             labels.add(lab)
     return "complete=[" + ",".join(sorted(labels)) + "]"
 
@@ -631,8 +772,10 @@ def project_impl(case, impl_items):
 # ----------------------------------------------------------------------------- runner: one row per query
 class BinderRunner(vlib.Runner):
     def eval_cases(self, leg, cases):
-        impl = vlib.run_worker([self.impl_exe, leg.name], cases, leg.per_case_s, leg.jobs)
-        mod = vlib.run_worker([self.model_exe, leg.name], cases, max(0.5, leg.per_case_s))
+        # a wide leg runs the same model leg as its narrow sibling (`run_as`) and drives the real server through the
+        # generic scripted leg (`impl_as`): the family's own harness legs reject `_G` as a built-in name
+        impl = vlib.run_worker([self.impl_exe, getattr(leg, "impl_as", leg.name)], cases, leg.per_case_s, leg.jobs)
+        mod = vlib.run_worker([self.model_exe, getattr(leg, "run_as", leg.name)], cases, max(0.5, leg.per_case_s))
         rows = []
         for c, i, m in zip(cases, impl, mod):
             parts = m.split("\t")
@@ -662,6 +805,45 @@ def skip_model(m):
     return "SKIP" in m
 
 
+def wide_leg(name, run_as, gen, per_case_s=1.5):
+    """a leg on the wide stream (`_G.name`, tables, indexing, methods); same decision rule as the narrow leg `run_as`"""
+    leg = Leg(name, gen, nontrivial=nontrivial, describe=describe, per_case_s=per_case_s, skip_model=skip_model)
+    leg.run_as, leg.impl_as = run_as, "srv.script"
+    return leg
+
+
+def gen_wide_twin_workspace(rng):
+    """a global defined in one file (plainly or as `_G.g = ...`) and used in every file as `g` / `_G.g`, sometimes
+    under a same-named local; uses at identical positions in different files"""
+    g = rng.choice(GLOBALS)
+    call = rng.choice(UNDEF)
+    out = []
+    for fi, fn in enumerate(["a.lua", "b.lua", "sub/c.lua"][:rng.choice([2, 2, 3])]):
+        lines = []
+        if fi == 0:
+            lines.append(rng.choice(["%s = 1", "_G.%s = 1", "function %s() end", "function _G.%s() end"]) % g)
+        else:
+            lines.append(rng.choice(["local zq = 2", "use(2)"]))
+        if rng.random() < 0.5:
+            lines.append("local %s = %d" % (g, fi))              # a local of the same name: `_G.g` is still the global
+        lines.append("local y = _G.%s + 1" % g if rng.random() < 0.6 else "local y = %s(_G.%s, %s)" % (call, g, g))
+        if rng.random() < 0.5:
+            lines.append("_G.%s = y" % g)
+        if rng.random() < 0.4:
+            lines.append("%s(%s)" % (call, g))
+        text = "\n".join(lines) + "\n"
+        pos = []
+        for li, ln in enumerate(text.split("\n")):
+            for m in IDENT_RE.finditer(ln):
+                pos.append((m.group(0), li, m.start()))
+        out.append((fn, text, ident_positions(pos)))
+    return out
+
+
+def pick_wide_workspace(rng, unique=False):
+    return gen_wide_twin_workspace(rng) if (not unique and rng.random() < 0.12) else gen_wide_workspace(rng, unique=unique)
+
+
 TRUSTED = vlib.TRUSTED_COMMON + [
     "shared Lua front end model (coq/Model/Lexer.v Parser.v; validated separately against the Go parser incl. every Loc)",
     "modelled, tied by correspondence: scope_info.go (AddLocVar, FindLocVar, FindMinScope, GetCompleteVar), var_info.go "
@@ -675,6 +857,11 @@ TRUSTED = vlib.TRUSTED_COMMON + [
 ASSUME = [
     "fragment (T1): in_fragment programs (no table constructors / indexing / methods / self / _G / require / goto), "
     "ASCII text without CR and square brackets, no identifier equal to a keyword, snippet or Lua library name",
+    "wide legs (*.wide): in_wide programs (Spec/LuaScopeWide.v: additionally `_G.name`, table constructors, indexing, "
+    "method calls, `function t.f()` / `function t:m()`; still no self / require / goto / `_G` outside `_G.name`), ASCII "
+    "text without CR; cursors on field / method names, next to a same-named string key (near_str) or on a line where "
+    "matchSpecialBracketsStr fires are skipped (SKIP-CUT / SKIP-KEY); correspondence and spec as for the narrow legs, "
+    "no positive theorem yet beyond model-level facts (Properties: *_wide_*)",
     "a global defined by several files resolves through the order-dependent workspace table (C09): such queries are "
     "skipped (SKIP-AMBIG) unless the querying file defines the global itself",
     "Laid P (Locs are token spans of a text) is a hypothesis of the theorems; discharged for parser output by the lead",
@@ -747,8 +934,18 @@ def run_family(pid, legs, tier, seed, model_pid="C05"):
     return r.finish(legs, extra_cov=extra, trusted=TRUSTED, assumptions=ASSUME)
 
 
+def gen_define_wide(rng, tier):
+    out = []
+    for _ in range(n_programs(tier, quick=160)):
+        ws = pick_wide_workspace(rng)
+        steps = cursor_steps(["define"], ws, rng)
+        out.append(make_case([(fn, text) for fn, text, _ in ws], steps))
+    return out
+
+
 LEGS = [
     Leg("c05.define", gen_define, nontrivial=nontrivial, describe=describe, per_case_s=1.0, skip_model=skip_model),
+    wide_leg("c05.wide", "c05.define", gen_define_wide, per_case_s=1.0),
 ]
 
 
